@@ -9,6 +9,7 @@ Require Import Sedpack.Model.PipeBase Sedpack.Generated.GenPipeline Sedpack.Proo
 Require Import Sedpack.Generated.GenLazyPool Sedpack.Model.LazyPool Sedpack.Proofs.LazyPoolInv Sedpack.Proofs.LazyPoolResult.
 From Coq Require Import Permutation.
 Require Sedpack.Model.Filler Sedpack.Model.Meta Sedpack.Proofs.IterateProofs.
+Require Sedpack.Generated.GenRegistry Sedpack.Model.Registry Sedpack.Proofs.RegistryProofs Sedpack.Proofs.RustPipeline.
 
 (** Shuffle buffer (paths and examples): for every buffer size >= 1, every sequence of random
     indices and every final shuffle, a full pass ends and yields a permutation of its input. *)
@@ -110,6 +111,25 @@ Proof. exact IterateProofs.wrote_filler_accepted. Qed.
 Print Assumptions c02_a_filler_stores_its_accepted_writes.
 
 (** Non-vacuity with the concrete generator of the code (r*1664525+1013904223 mod 2^32). *)
+(** The Rust interface as a whole: every pass of a RustGenerator is the composition [anr] regenerated from its [_single_iter] (shard-level
+    shuffle of the selected paths, the examples of those shards in path order, process_record); any number of generators — repeating
+    or not — are advanced and dropped in any interleaving through the shared registry of live Rust iterators.  If the registry keys
+    never repeat, consumer i has received whole passes plus a prefix of the current pass, EVERY pass being a permutation of
+    [spec] = every example of every selected shard of generator i, processed once; and no request fails. *)
+Theorem c02_rust_interface_every_pass_exactly_once :
+  forall (path ex : Type) (read : path -> list ex) (process : ex -> ex) (idgen : nat -> nat), (forall a b, idgen a = idgen b -> a = b) ->
+  forall (paths : nat -> list path) (shuffle : nat -> nat) (hp rep : nat -> bool)
+         (pick : nat -> nat -> nat -> nat -> nat) (perm : nat -> nat -> list path -> list path),
+  (forall i n j len, 0 < len -> pick i n j len < len) -> (forall i n l, Permutation (perm i n l) l) -> (forall i, paths i <> []) ->
+  forall (ops : list Registry.op) (i : nat),
+    let pass := RustPipeline.rust_pass path ex read process paths shuffle hp pick perm in
+    let rs := snd (Registry.run idgen (Registry.init pass rep) ops) in
+    (exists n k, RegistryProofs.stream i ops rs = concat (map (pass i) (seq 0 n)) ++ firstn k (pass i n)) /\
+    (forall n, Permutation (pass i n) (spec path ex read process (hp i) (paths i))) /\
+    ~ List.In (Some Registry.Panic) rs.
+Proof. exact RustPipeline.rust_interface_exactly_once. Qed.
+Print Assumptions c02_rust_interface_every_pass_exactly_once.
+
 Theorem c02_nonvacuous :
   sb_out (sb_run list_source (lcg_pick 12345) (@rev nat) 3 30 (sb_init list_source [1; 2; 3; 4; 5; 6; 7])) = [1; 3; 2; 5; 7; 6; 4]
   /\ rr_out (rr_run list_source (lcg_pick 7) 2 40 (rr_init list_source [[1; 2; 3]; []; [4]; [5; 6]])) = [1; 4; 2; 3; 5; 6].
